@@ -100,6 +100,17 @@ Theorem c07_scene_barrier_needs_refusal_done :
   exists ls s, wrun false wg_init ls = Some s /\ wg_running s = 0%nat /\ (wg_count s > 0)%Z.
 Proof. exact scene_barrier_without_done_stuck. Qed.
 
+(** The deferred collectErrors of a scene always finds a value in errCh: for
+    every list of lines — mood-only lines whose hand-over to the audition fails
+    (the prompter is cancelled while blocked there: runScene returns early) or
+    not, actor lines started or refused — at least one value has been sent. *)
+Theorem c07_scene_collect_never_blocks : forall ls, (1 <= errch_at_collect true ls)%nat.
+Proof. exact collect_never_blocks. Qed.
+
+(** ... because a mood-only line reports BEFORE its mood change. *)
+Theorem c07_scene_collect_needs_report_first : exists ls, errch_at_collect false ls = 0%nat.
+Proof. exact collect_blocks_without_report_first. Qed.
+
 (** Non-vacuity: a spotlight fails in stage 1, everything is cancelled, the
     audit re-check adds a violation, the final cleanup fails; a play whose
     initial cleanup fails; a SIGHUP-ignoring background child whose leader
